@@ -50,7 +50,7 @@ class C16(object):
             'return value with the reference slice; BaseSolver.CreateCsvString histories likewise; distinct = hash of '
             '(holder data, history); non-trivial = >= 2 reads of which one with suppression or mutation')
     assumptions = ['series are non-empty when time-zero suppression is on', 'cutoffs are non-negative']
-    required_counters = ('get.judged', 'other_holder_built_between_reads', 'get.no_cutoff_series_longer_than_model_horizon', 'get.suppressed', 'get.mutated_return', 'csv.judged', 'csv.default_format', 'basesolver.judged', 'get_missing.judged',
+    required_counters = ('get.judged', 'get.series_with_tiny_magnitudes', 'other_holder_built_between_reads', 'get.no_cutoff_series_longer_than_model_horizon', 'get.suppressed', 'get.mutated_return', 'csv.judged', 'csv.default_format', 'basesolver.judged', 'get_missing.judged',
                          'insitu.gettimeseries.post_evaluated')
 
     def n_cases(self, tier):
@@ -80,6 +80,10 @@ class C16(object):
         for g in ('main', 'step', 'initial'):
             holders[g] = {nm: [rng.choice([0.0, 1.0, 2.0, -1.5, 3.25, 10.0]) + i for i in range(ln + rng.randint(0, 2))]
                           for nm in names}
+            if idx % 3 == 2:
+                # magnitudes far from 1: the stored points come back as they are, however small or large
+                for nm in names:
+                    holders[g][nm] = [v * rng.choice([1e-13, -5e-100, 1e-300, 1e300, 2.5e-11, 1.0]) for v in holders[g][nm]]
         return {'kind': 'synthetic', 'holders': holders, 'history': gen_history(rng, n, ln),
                 # the model's own horizon may be shorter than a stored group (steady-state search, step trace, a
                 # horizon set on the solver): "no cutoff" still means every stored point
@@ -179,6 +183,8 @@ class C16(object):
                     rec.violate('read_raised', {'op': op, 'series': name, 'err': repr(e)})
                     break
                 rec.count('get.judged')
+                if any(0.0 < abs(x) < 1e-9 for x in stored):
+                    rec.count('get.series_with_tiny_magnitudes')
                 if eff is None and len(stored) > mod.MaxTime + 1:
                     rec.count('get.no_cutoff_series_longer_than_model_horizon')
                 reads += 1
